@@ -72,6 +72,37 @@ GOOD_FOR = {
     NOQ: ['none', 'default', 'a8w8', 'wo8_ch', 'fp16'],
     BOGUS: ['none', 'a8w8', 'skip_a8w8'],
 }
+_STATIC_OPS = ['ADD', 'AVERAGE_POOL_2D', 'BATCH_MATMUL', 'CONCATENATION', 'CONV_2D', 'CONV_2D_TRANSPOSE',
+               'DEPTHWISE_CONV_2D', 'FULLY_CONNECTED', 'GELU', 'LOGISTIC', 'MEAN', 'MUL', 'RESHAPE', 'RSQRT',
+               'SOFTMAX', 'SPLIT', 'STRIDED_SLICE', 'SUB', 'TANH', 'TRANSPOSE', 'INPUT', 'OUTPUT']
+_W8_OPS = ['BATCH_MATMUL', 'CONV_2D', 'CONV_2D_TRANSPOSE', 'DEPTHWISE_CONV_2D', 'EMBEDDING_LOOKUP',
+           'FULLY_CONNECTED']
+
+
+def likely_good_configs(op, algo):
+  """Generator-side guess of configs the library accepts for (op, algo); only steers the mix."""
+  if algo == NOQ:
+    return GOOD_FOR[NOQ]
+  if algo == BOGUS:
+    return GOOD_FOR[BOGUS]
+  if algo == FLOATCAST:
+    return ['fp16']
+  if op == '*':
+    return STATIC_CONFIGS + WEIGHT_CONFIGS
+  out = []
+  if op in _STATIC_OPS:
+    out += ['a8w8', 'a8w8_t', 'a8sw8', 'a16w8']
+  if op in ('FULLY_CONNECTED', 'CONV_2D', 'INPUT', 'OUTPUT'):
+    out += ['a8w4', 'a16w4']
+  if op in _W8_OPS:
+    out += ['wo8_ch', 'wo8_asym', 'drq8_ch', 'drq8_t']
+  if op in ('FULLY_CONNECTED', 'EMBEDDING_LOOKUP'):
+    out += ['drq4_ch', 'wo4_t', 'wo4_ch']
+  if op == 'BATCH_MATMUL':
+    out += ['wo4_t', 'wo4_ch']
+  return out or ['a8w8']
+
+
 SHIPPED = ['default_a8w8_recipe', 'default_a16w8_recipe', 'default_af32w4float_recipe',
            'default_af32w8float_recipe', 'dynamic_wi8_afp32_recipe']
 SHIPPED_NEED_CALIB = {'default_a8w8_recipe': True, 'default_a16w8_recipe': True}
